@@ -2,7 +2,7 @@
 /* C07.update_unencoded_base_hash: fragment := percent-encode(input, fragment set) */
 void harness(void) {
   EDITOR_PROLOGUE
-  sv_t input; input.n = nondet_size(); MAKE_SV(input);
+  ND_SV(input);
   char ref[3 * BUF_N + 1]; size_t rn = ref_percent_encode(input, G_FRAGMENT_PERCENT_ENCODE, ref);
   __CPROVER_assume(u.buffer.n + rn + 1 <= STR_CAP);
 
